@@ -23,7 +23,8 @@ use tracing_subscriber::{layer::SubscriberExt, registry::LookupSpan, Layer, Regi
 use tracing_tunnel::TracingLevel;
 
 use self::base::{
-    bump_prog, cids, corpus, corpus_sites, dump_shared, exec_collect, gen_filter, registry_case, run_capture, show_prog,
+    bump_prog, cids, corpus, corpus_sites, dump_shared, exec_collect, exec_hostile, gen_filter, registry_case, run_capture,
+    show_prog,
     single, FExpr, FilterSpec,
 };
 use crate::{coq::*, guest::*, out::Sink, rng::Rng, Opts};
@@ -264,47 +265,6 @@ fn stack_case_with(sink: &mut Sink, idx: u64, kind: &str, prog: &Prog, specs: &[
 
 // ---- hostile renderings ---------------------------------------------------------------------------
 
-const LOUD: &str = "Loud (logs while it is rendered)";
-const BOMB: &str = "Bomb (panics while it is rendered)";
-
-/// Executes a program whose `Debug` values misbehave: rendering `LOUD` emits an event on call site 1,
-/// rendering `BOMB` panics (the guest catches its own panic).  An operation that panicked is skipped.
-fn exec_hostile(prog: &Prog) -> (ExecResult, Vec<u64>) {
-    let sites = make_sites(&prog.sites);
-    let inner = sites[1];
-    DEBUG_EFFECT.with(|e| {
-        *e.borrow_mut() = Some((LOUD.to_owned(), Box::new(move || {
-            if inner.is_enabled() {
-                with_value_set(inner, &[], |vs| tracing::Event::dispatch(inner.metadata(), vs));
-            }
-        })));
-    });
-    let mut r = ExecResult::default();
-    let mut raws = vec![];
-    for (_, op) in &prog.ops {
-        let bomb = match op {
-            Op::Record(_, vals) | Op::Event(_, _, vals) | Op::NewSpan(_, _, vals) => {
-                vals.iter().any(|(_, p)| matches!(p, Some(Prim::Debug(o)) if o.debug == BOMB))
-            }
-            _ => false,
-        };
-        if bomb {
-            DEBUG_EFFECT.with(|e| *e.borrow_mut() = Some((BOMB.to_owned(), Box::new(|| std::panic::resume_unwind(Box::new("guest Debug impl panics"))))));
-            let _ = catch_unwind(AssertUnwindSafe(|| exec_op(&mut r, &sites, op)));
-            DEBUG_EFFECT.with(|e| *e.borrow_mut() = None);
-        } else {
-            exec_op(&mut r, &sites, op);
-        }
-        r.ops_run += 1;
-        if let Op::NewSpan(..) = op {
-            let id = r.handles.last().and_then(|hs| hs.first()).and_then(tracing::Span::id);
-            raws.push(id.map_or(0, |i| i.into_u64()));
-        }
-    }
-    DEBUG_EFFECT.with(|e| *e.borrow_mut() = None);
-    (r, raws)
-}
-
 /// `hostile`: the program the guest runs, with misbehaving `Debug` values; `quiet`: the program whose
 /// trace it must be captured as (the event emitted while a recorded value is rendered comes first;
 /// an operation whose value panics while it is rendered is not captured).  One capture layer that
@@ -344,38 +304,7 @@ fn hostile_case(sink: &mut Sink, idx: u64, kind: &str, hostile: &Prog, quiet: &P
 }
 
 fn hostile_cases(sink: &mut Sink, idx: &mut u64) {
-    let t = "guest::c16::hostile";
-    let sites = vec![
-        base::site(tracing_tunnel::CallSiteKind::Span, "work", t, TracingLevel::Info, &["a", "b"]),
-        base::site(tracing_tunnel::CallSiteKind::Event, "event src/hostile.rs:1", t, TracingLevel::Info, &[]),
-        base::site(tracing_tunnel::CallSiteKind::Event, "event src/hostile.rs:2", t, TracingLevel::Warn, &["v"]),
-    ];
-    let dbg = |text: &str| Some(Prim::Debug(Obj { display: "-".into(), debug: text.to_owned() }));
-    let prog = |ops: Vec<Op>| Prog { sites: sites.clone(), ops: ops.into_iter().map(|o| (0usize, o)).collect() };
-    let span = || Op::NewSpan(0, ParentKind::Ctx, vec![]);
-    let inner = || Op::Event(1, ParentKind::Ctx, vec![]);
-    let scenarios: Vec<(&str, Prog, Prog)> = vec![
-        (
-            "loud-record",
-            prog(vec![span(), Op::Record(0, vec![(0, dbg(LOUD))]), inner(), Op::Drop(0)]),
-            prog(vec![span(), inner(), Op::Record(0, vec![(0, dbg(LOUD))]), inner(), Op::Drop(0)]),
-        ),
-        (
-            "loud-record-inside-the-span",
-            prog(vec![span(), Op::Enter(0), Op::Record(0, vec![(1, dbg(LOUD)), (0, Some(Prim::Bool(true)))]), Op::Exit(0), Op::Drop(0)]),
-            prog(vec![span(), Op::Enter(0), inner(), Op::Record(0, vec![(1, dbg(LOUD)), (0, Some(Prim::Bool(true)))]), Op::Exit(0), Op::Drop(0)]),
-        ),
-        (
-            "bomb-event",
-            prog(vec![span(), Op::Enter(0), Op::Event(2, ParentKind::Ctx, vec![(0, dbg(BOMB))]), inner(), Op::Exit(0), Op::Drop(0)]),
-            prog(vec![span(), Op::Enter(0), inner(), Op::Exit(0), Op::Drop(0)]),
-        ),
-        (
-            "bomb-record",
-            prog(vec![span(), Op::Record(0, vec![(0, dbg(BOMB))]), inner(), Op::Record(0, vec![(1, Some(Prim::Bool(false)))]), Op::Drop(0)]),
-            prog(vec![span(), inner(), Op::Record(0, vec![(1, Some(Prim::Bool(false)))]), Op::Drop(0)]),
-        ),
-    ];
+    let scenarios = base::hostile_scenarios();
     for (name, hostile, quiet) in &scenarios {
         for specs in [
             vec![LayerSpec::Capture(FilterSpec::Unfiltered)],
